@@ -91,7 +91,9 @@ func init() {
 		f := i.tf
 		i.addPC(f.And(f.mk(OILe, sortBool, f.Int(lo), v), f.mk(OILe, sortBool, v, f.Int(hi))))
 		if i.path.model != nil {
-			i.path.model[v.name] = big.NewInt(lo)
+			if _, have := i.path.model[v.name]; !have {
+				i.path.model[v.name] = big.NewInt(lo)
+			}
 		}
 		return v
 	})
@@ -116,7 +118,9 @@ func init() {
 		f := i.tf
 		i.addPC(f.And(f.mk(OILe, sortBool, f.IntB(lo), v), f.mk(OILe, sortBool, v, f.IntB(hi))))
 		if i.path.model != nil {
-			i.path.model[v.name] = lo
+			if _, have := i.path.model[v.name]; !have {
+				i.path.model[v.name] = lo
+			}
 		}
 		*cell = &bigv{t: v}
 		return cell
